@@ -1,7 +1,7 @@
 (* C08: Table.filter / remove_empty / head at the content level (L1), and the inner loop
    of the compiled predicate kernel (_filter.pyx:41-52) at the array level (L2). *)
 From Coq Require Import List Arith ZArith Lia Bool.
-From BiomV Require Import Base.Tree Base.ListUtil Base.Matrix Model.Table.
+From BiomV Require Import Base.Tree Base.ListUtil Base.Matrix Model.Table Model.Orient.
 From BiomV Require Export Gen.FilterGen.
 Import ListNotations.
 
@@ -15,16 +15,22 @@ Definition filter_mask (mask : list bool) (a : axis) (t : table) : table :=
                 (omd t) (option_map (select mask) (smd t)) (ttype t)
   end.
 
+(* Table.filter (table.py) reinstalls the kernel's result and then calls _cast_metadata, which
+   applies the constructor's rule to both metadata tuples: entries all empty -> None *)
+Definition norm_md (t : table) : table :=
+  mkT (oids t) (sids t) (mat t) (ctor_md (omd t)) (ctor_md (smd t)) (ttype t).
+Definition filter_table (mask : list bool) (a : axis) (t : table) : table := norm_md (filter_mask mask a t).
+
 (* iterable path, _filter.pyx:126-130: idx = [index[id_] for id_ in ids_to_keep] raises KeyError
    for an unknown id before anything is modified; bools = put(idx, True) xor invert *)
 Definition filter_ids (keep : list Z) (invert : bool) (a : axis) (t : table) : result table :=
   if forallb (fun x => zmem x (ids a t)) keep
-  then ROk (filter_mask (map (fun i => xorb (zmem i keep) invert) (ids a t)) a t)
+  then ROk (filter_table (map (fun i => xorb (zmem i keep) invert) (ids a t)) a t)
   else RErr E_KEY.
 
 (* function path: the user predicate is code, its verdicts are an input of the model *)
 Definition filter_pred (verdicts : list bool) (invert : bool) (a : axis) (t : table) : table :=
-  filter_mask (map (fun b => xorb b invert) verdicts) a t.
+  filter_table (map (fun b => xorb b invert) verdicts) a t.
 
 (* the ids a predicate accepts *)
 Definition accepted (verdicts : list bool) (a : axis) (t : table) : list Z := select verdicts (ids a t).
@@ -36,7 +42,7 @@ Definition pred_calls (a : axis) (t : table) : list (list Z * Z * option Tree) :
 (* remove_empty, table.py: keeps the vectors that have a non-zero entry *)
 Definition nonempty_mask (a : axis) (t : table) : list bool :=
   map (fun i => negb (all_zero (vec a t i))) (seq 0 (length (ids a t))).
-Definition remove_empty_axis (a : axis) (t : table) : table := filter_mask (nonempty_mask a t) a t.
+Definition remove_empty_axis (a : axis) (t : table) : table := filter_table (nonempty_mask a t) a t.
 (* axis = 'whole' filters samples first, then observations of the result *)
 Definition remove_empty_whole (t : table) : table := remove_empty_axis Obs (remove_empty_axis Samp t).
 
@@ -44,8 +50,8 @@ Definition remove_empty_whole (t : table) : table := remove_empty_axis Obs (remo
 Definition head_mask (n len : nat) : list bool := map (fun i => Nat.ltb i n) (seq 0 len).
 Definition head (n m : Z) (t : table) : result table :=
   if (n <=? 0)%Z || (m <=? 0)%Z then RErr E_OTHER
-  else ROk (filter_mask (head_mask (Z.to_nat m) (nsamp t)) Samp
-             (filter_mask (head_mask (Z.to_nat n) (nobs t)) Obs t)).
+  else ROk (filter_table (head_mask (Z.to_nat m) (nsamp t)) Samp
+             (filter_table (head_mask (Z.to_nat n) (nobs t)) Obs t)).
 
 (* ---- L2: the dense-vector rebuild loop of _make_filter_array_general ----
    for j in range(n):
